@@ -36,6 +36,11 @@ Fixpoint join (sep : string) (l : list string) : string :=
   | x :: r => x ++ sep ++ join sep r
   end%string.
 
+(* ---- Python s.rstrip(chars) ---- *)
+Fixpoint rstrip_set (cs : list ascii) (l : list ascii) : list ascii :=   (* on the reversed string *)
+  match l with c :: r => if existsb (Ascii.eqb c) cs then rstrip_set cs r else l | [] => [] end.
+Definition rstrip_chars (cs : string) (s : string) : string := of_chars (rev (rstrip_set (chars cs) (rev (chars s)))).
+
 (* ---- Python slices s[:-1] and s[n:] ---- *)
 Definition drop_last (s : string) : string := of_chars (removelast (chars s)).
 Definition str_skip (n : nat) (s : string) : string := of_chars (skipn n (chars s)).
